@@ -279,9 +279,14 @@ pub fn run_stress(args: &Args, mut out: Out) {
         };
         let permit = permit::Permit::new();
         let cache = temp_dir::TempDir::new().unwrap();
-        let (addr, stopped) = executor
-            .block_on(HttpServerBuilder::new().max_conns(max).small_body_len(1000).receive_large_bodies(cache.path()).permit(permit.new_sub()).spawn(handler))
-            .unwrap();
+        // (the builder's setters are called in varying order: each sets its own field and leaves the others alone)
+        let any_port = std::net::SocketAddr::from(([127, 0, 0, 1], 0));
+        let builder = match sid % 3 {
+            0 => HttpServerBuilder::new().max_conns(max).small_body_len(1000).receive_large_bodies(cache.path()).permit(permit.new_sub()),
+            1 => HttpServerBuilder::new().listen_addr(any_port).permit(permit.new_sub()).receive_large_bodies(cache.path()).small_body_len(1000).max_conns(max),
+            _ => HttpServerBuilder::new().permit(permit.new_sub()).max_conns(max).receive_large_bodies(cache.path()).small_body_len(1000).listen_addr(any_port),
+        };
+        let (addr, stopped) = executor.block_on(builder.spawn(handler)).unwrap();
         let mut clients: Vec<Client> = (0..nclients).map(|_| Client { sock: None, port: 0, sent: 0, outstanding: false }).collect();
         let mut aborted: Vec<u16> = vec![];
         let connect = |clients: &mut Vec<Client>, c: usize| {
@@ -343,12 +348,14 @@ pub fn run_stress(args: &Args, mut out: Out) {
                 3..=5 if clients[c].sock.is_some() => {
                     clients[c].sent += 1;
                     let k = clients[c].sent;
-                    let kind = *["ok", "ok", "ok", "err", "five", "panic", "drop", "big", "malformed", "partial-head", "partial-upload"].choose(r).unwrap();
+                    let kind = *["ok", "ok", "ok", "err", "five", "panic", "drop", "big", "malformed", "partial-head", "partial-upload", "partial-small"].choose(r).unwrap();
                     emit("ClientSend", c as u64, u64::from(k));
                     let msg: Vec<u8> = match kind {
                         "malformed" => format!("GET /c{c}/k{k}/x HTTP/1.1\r\nbad header line\r\n\r\n").into_bytes(),
                         "partial-head" => format!("GET /c{c}/k{k}/ok HTT").into_bytes(),
                         "partial-upload" => format!("PUT /c{c}/k{k}/ok HTTP/1.1\r\ncontent-length: 5000\r\n\r\n{}", "u".repeat(1200)).into_bytes(),
+                        // a small declared body (read into memory without asking the handler) of which only a part arrives
+                        "partial-small" => format!("PUT /c{c}/k{k}/ok HTTP/1.1\r\ncontent-length: 10\r\n\r\nabc").into_bytes(),
                         _ => format!("GET /c{c}/k{k}/{kind} HTTP/1.1\r\n\r\n").into_bytes(),
                     };
                     clients[c].outstanding = true;
